@@ -104,8 +104,8 @@ def run(ctx):
 
     # 4. replay into the real code
     # quick tier: weights and ring shares for every vector, the two full pick cycles for every
-    # vector of <=3 targets and a seed-selected fifth of the others
-    r = run_harness(ctx, cases, "C04 replay", pick_every=ctx.pick(5, 1))
+    # vector of <=3 targets added with fixed weights and a seed-selected fifth (thorough: third) of the others
+    r = run_harness(ctx, cases, "C04 replay", pick_every=ctx.pick(5, 3))
     if r is None:
         return
     s = r.summary
